@@ -7,7 +7,10 @@ package main
 // statement directly with regexp.
 
 import (
+	"encoding/json"
 	"fmt"
+	"os"
+	"path/filepath"
 	"regexp"
 	"strconv"
 	"strings"
@@ -240,6 +243,11 @@ func oracleText(c *Case, errs []string, note string, idx int, res *lib.Result) {
 	if note != "" {
 		viol("one-item-per-line", "load-paths-disagree", note)
 	}
+	if wantLong && c.TooLong && listedFinding(longLineKey) {
+		// the faithful model refutes "every line parses" for such a line (C20_every_line_one_item_refuted);
+		// reported under its stable key once known_findings.json lists it, a note in the evidence until then
+		viol("every-line-parses", "line-of-64KiB-or-more", fmt.Sprintf("physical line %d has %d bytes: LoadFile returned an error after %d items, the file is refused", n+1, len(raw[n]), len(c.ObsL)))
+	}
 	if c.TooLong != wantLong {
 		viol("one-item-per-line", "load-error", fmt.Sprintf("LoadFile error is %v; a raw line of 64 KiB or more present: %v", c.TooLong, wantLong))
 		return
@@ -443,4 +451,27 @@ func oracleCancelled(c *Case, direct []string, idx int, res *lib.Result) {
 		res.Violate(lib.Violation{Clause: "filter-passes-exactly", Case: idx, Key: "filter-passes-exactly:FilterLines-cancelled", Replay: c,
 			Detail: fmt.Sprintf("context cancelled while the consumer paused: %d lines arrived %q, which is not a prefix of the %d permitted lines %q", len(c.Out), c.Out, len(want), want)})
 	}
+}
+
+const longLineKey = "every-line-parses:line-of-64KiB-or-more"
+
+var listed map[string]bool
+
+// listedFinding: is key a known finding of C20 in $VERIF_ROOT/known_findings.json?
+func listedFinding(key string) bool {
+	if listed == nil {
+		listed = map[string]bool{}
+		b, err := os.ReadFile(filepath.Join(os.Getenv("VERIF_ROOT"), "known_findings.json"))
+		var kf struct {
+			Findings []struct{ Property, Key, Status string }
+		}
+		if err == nil && json.Unmarshal(b, &kf) == nil {
+			for _, f := range kf.Findings {
+				if f.Property == "C20" && f.Status == "known" {
+					listed[f.Key] = true
+				}
+			}
+		}
+	}
+	return listed[key]
 }
